@@ -8,6 +8,8 @@ import struct
 from fractions import Fraction
 
 
+OUTPUT = "Phred.lean"      # the generated file (harness/core.py: a failure of this translator concerns the properties that import it)
+
 def generate(build_dir):
     import importlib
     ee = importlib.import_module("cutadapt.qualtrim").expected_errors
